@@ -62,6 +62,11 @@ fn run_probe(ctx: &Ctx, w: &Written, tag: &str) -> Result<Value, String> {
     }
     if w.via_env {
         cmd.args(["cfgprobe", "ENV"]);
+        // decoys: the same settings under names WITHOUT the documented prefix, as other software
+        // in the same environment may define them; they are not this server's settings
+        for (k, v) in [("PORT", "2002"), ("INTERFACE", "127.0.0.1"), ("SEED", "a32049da0ffde0ded92ce10a0230d35fe615ec8461c14986baa63fe3b3bac3db"), ("BATCH_SIZE", "13"), ("NUM_WORKERS", "3"), ("FAULT_PERCENTAGE", "11"), ("HOST", "127.0.0.1"), ("STATUS_INTERVAL", "77")] {
+            cmd.env(k, v);
+        }
         for (k, v) in &w.pairs {
             cmd.env(env_name(k), v);
         }
@@ -373,6 +378,20 @@ pub fn run(ctx: &Ctx, out: &mut Out) {
             p.push(("__raw__sep".into(), "---".into()));
             p.push(("batch_size".into(), "7".into()));
             extra.push(("second-document-with-batch_size-7".into(), Written { pairs: p, via_env }, false, Some(("batch_size", json!(7)))));
+            // numbers that are not integers: an integer setting cannot "run with the value
+            // written", so start-up must be refused (never a silently truncated value)
+            for (key, vals) in [
+                ("batch_size", vec!["7.5", "64.5", "0.9", ".nan", ".inf", "6.4e1x"]),
+                ("fault_percentage", vec!["50.9", "0.5", "12.25", ".nan"]),
+                ("num_workers", vec!["2.5", "0.99", "1e-1"]),
+                ("status_interval", vec!["1.5", "0.1"]),
+                ("port", vec![&format!("{}.5", port)[..], ".inf"].into_iter().map(|x| Box::leak(x.to_string().into_boxed_str()) as &str).collect()),
+                ("health_check_port", vec!["8000.5"]),
+            ] {
+                for v in vals {
+                    extra.push((format!("non-integer-{}-{}", key, v), Written { pairs: with(base.clone(), key, v), via_env }, true, None));
+                }
+            }
             // keys that YAML does not type as strings are unknown keys all the same
             for (nm, line) in [("integer", "16: batch_size"), ("integer-2", "8000: 1"), ("boolean", "true: on"), ("null", "~: 5"), ("float", "2.5: x"), ("list", "[a, b]: x"), ("map", "{a: b}: x")] {
                 let mut p = base.clone();
@@ -416,6 +435,49 @@ pub fn run(ctx: &Ctx, out: &mut Out) {
             continue;
         }
         judge_refusal(ctx, out, &what, w, &seed, must_refuse, expect);
+    }
+    // a relative persistence_directory means the same thing from both sources: relative to the
+    // directory the server is started in, wherever the configuration file lives
+    if ctx.shard % 4 == 2 {
+        let cwd = ctx.scratch.join("reldir-cwd");
+        let conf = ctx.scratch.join("reldir-conf");
+        std::fs::create_dir_all(cwd.join("stats-rel")).ok();
+        std::fs::create_dir_all(&conf).ok();
+        let port = free_port(false);
+        let cfgpath = conf.join("server.cfg");
+        let _ = std::fs::write(&cfgpath, format!("interface: 127.0.0.1\nport: {}\nseed: {}\nclient_stats: on\npersistence_directory: stats-rel\n", port, hex(&seed)));
+        for via_env in [false, true] {
+            let mut cmd = Command::new(std::env::current_exe().unwrap());
+            cmd.current_dir(&cwd);
+            for (k, _) in std::env::vars() {
+                if k.starts_with("ROUGHENOUGH_") {
+                    cmd.env_remove(k);
+                }
+            }
+            if via_env {
+                cmd.args(["cfgprobe", "ENV"]);
+                cmd.env("ROUGHENOUGH_INTERFACE", "127.0.0.1").env("ROUGHENOUGH_PORT", port.to_string()).env("ROUGHENOUGH_SEED", hex(&seed)).env("ROUGHENOUGH_CLIENT_STATS", "on").env("ROUGHENOUGH_PERSISTENCE_DIRECTORY", "stats-rel");
+            } else {
+                cmd.args(["cfgprobe", cfgpath.to_str().unwrap()]);
+            }
+            let Ok((_, so, _, wd)) = run_with_timeout(cmd, Duration::from_secs(20)) else { continue };
+            if wd {
+                out.inconclusive("probe watchdog");
+                continue;
+            }
+            let txt = String::from_utf8_lossy(&so);
+            let probe: Value = serde_json::from_str(txt.lines().last().unwrap_or("")).unwrap_or(json!({"refused":"abnormal exit"}));
+            out.obs("probe_runs", 1);
+            out.obs("relative_persistence_directory_cases", 1);
+            out.case(fnv64(format!("reldir{}", via_env).as_bytes()), true);
+            let src = if via_env { "env" } else { "file" };
+            let desc = json!({"kind":"config","what":"relative persistence_directory, configuration file in another directory than the working directory","source":src});
+            if probe.get("refused").is_some() {
+                out.violation(&format!("C16 {} refused-valid persistence_directory-relative", src), &format!("persistence_directory: stats-rel (exists in the working directory) is refused: {}", probe["refused"]), desc);
+            } else if probe["persistence_directory"] != json!("stats-rel") {
+                out.violation(&format!("C16 {} persistence_directory differs relative-path", src), &format!("written stats-rel, effective {}", probe["persistence_directory"]), desc);
+            }
+        }
     }
     // a configuration FILE that happens to be called env / Env (only the exact argument "ENV"
     // selects the environment): the file's settings count, not the ROUGHENOUGH_* variables the
